@@ -132,7 +132,7 @@ def run_c08stress(chk, pid, runner, tier, seed, workdir, log, only_key):
                                 "signature": "%s:race:clear-or-resize-vs-%s" % (fam, ",".join(sorted(set(x for r in k1 for x in r[:2]) - {"Clear", "Resize"}) or ["Clear/Resize"])),
                                 "found_failing_input": True, "stress_seed": seed})
     for rep in sorted(set(races) - set(k1)):
-        sig = "%s:race:other:%s | %s" % (fam, rep[2], rep[3])
+        sig = "%s:race:other:%s" % (fam, " | ".join(sorted([rep[2], rep[3]])))
         if sig in seen:
             continue
         seen.add(sig)
